@@ -20,8 +20,8 @@ Arguments request_pack : simpl never.
 Arguments verification_trailer_pack : simpl never.
 
 Section Conv.
-Context (wrap : wrap_fn) (unwrap : unwrap_fn) (pfuel : nat) (sch : list Z).
-Notation W := (WC wrap unwrap pfuel sch).
+Context (wrap : wrap_fn) (unwrap : unwrap_fn) (sch : list Z).
+Notation W := (WC wrap unwrap sch).
 
 Lemma ces_of_cev cs : ces_of (map cev cs) = Some cs.
 Proof. induction cs as [|c r IH]; [reflexivity|]. cbn. now rewrite IH. Qed.
